@@ -306,6 +306,16 @@ func judgeAcc(w *core.W, c *accCase) {
 		defer func() { pan = recover() }()
 		req := &http.Request{Method: "GET", URL: &url.URL{Path: "/p/" + string(c.Param), RawQuery: string(c.RawQuery)}, Header: http.Header{}, RemoteAddr: "192.0.2.7:4711"}
 		req.Body = http.NoBody
+		if len(c.RawQuery)%2 == 0 {
+			// the request reached the application through an enclosing mux (go1.22 patterns) and carries that mux's
+			// wildcards, a header and a cookie - all under names the handler asks Param for. A parameter is what the
+			// route bound, nothing else
+			req.SetPathValue("nope", "42")
+			req.SetPathValue("v", "from-an-enclosing-mux")
+			req.Header.Set("Nope", "42")
+			req.AddCookie(&http.Cookie{Name: "nope", Value: "42"})
+			w.Count("requests-carrying-path-values-of-an-enclosing-mux")
+		}
 		if c.Form == "" && (len(c.Body) > 0 || c.BodyLen != "") {
 			req.Method = "POST"
 			req.Body = io.NopCloser(plainReader{strings.NewReader(string(c.Body))})
@@ -635,7 +645,7 @@ func runC18(r *core.Run) {
 		w.Begin("cookie", c)
 		judgeCookie(w, c)
 	})
-	for _, k := range []string{"class:absent", "class:empty", "class:well-formed-int", "class:well-formed-float", "class:well-formed-bool", "class:malformed", "class:out-of-range", "class:needs-escaping", "multi-valued", "form-body-parsed-before-reading", "cookie-class:empty", "cookie-class:plain", "cookie-class:separators", "cookie-class:non-ascii-or-control", "cookie-with-related-names", "cookie-absent-reads-of-related-names", "cookie-line-with-malformed-neighbours", "cookie-with-odd-attributes", "body-read:unknown", "body-read:exact", "body-read:none"} {
+	for _, k := range []string{"class:absent", "class:empty", "class:well-formed-int", "class:well-formed-float", "class:well-formed-bool", "class:malformed", "class:out-of-range", "class:needs-escaping", "multi-valued", "form-body-parsed-before-reading", "cookie-class:empty", "cookie-class:plain", "cookie-class:separators", "cookie-class:non-ascii-or-control", "cookie-with-related-names", "requests-carrying-path-values-of-an-enclosing-mux", "cookie-absent-reads-of-related-names", "cookie-line-with-malformed-neighbours", "cookie-with-odd-attributes", "body-read:unknown", "body-read:exact", "body-read:none"} {
 		r.GateCounter(k, 20)
 	}
 	r.GateCounter("cookie-single-bytes", 256)
